@@ -113,9 +113,10 @@ type Recorder struct {
 	FramesLogged int
 	FaultsLogged int
 	FramesSeen   int
-	Truncated    bool   // some step or frame of the current run was not logged
-	PanicOp      int    // opcode whose execute did not return (a panic unwound the frame), else -1
-	Cancel       func() // aborts the running EVM (EVM.Cancel); called once when HardSteps is exceeded
+	Truncated    bool        // some step or frame of the current run was not logged
+	PanicOp      int         // opcode whose execute did not return (a panic unwound the frame), else -1
+	LastRetLen   map[int]int // depth -> length of what the last frame that exited at that depth returned
+	Cancel       func()      // aborts the running EVM (EVM.Cancel); called once when HardSteps is exceeded
 	Cancelled    bool
 	boundSaid    bool
 	// statistics over the whole life of the recorder
@@ -196,6 +197,10 @@ func (r *Recorder) FrameEnter(f *vm.VerifFrame) {
 
 func (r *Recorder) FrameExit(f *vm.VerifFrame, ret []byte, logs []*types.Log, err error) {
 	fr := r.top()
+	if r.LastRetLen == nil {
+		r.LastRetLen = map[int]int{}
+	}
+	r.LastRetLen[f.Depth] = len(ret)
 	if fr != nil && fr.p != nil {
 		r.flush(fr, -1, err, ret, f.Gas)
 	}
